@@ -44,6 +44,14 @@ ASSUMPTIONS = [
     "the instance; a key missing in a master is replaced by that master's lookup fallback "
     "(DESIGN 4.5); integer-typed font info attributes are otRound-ed by the UFO data model even "
     "when round_geometry is off; italicAngle may stay unrounded",
+    "when one master holds both half-exceptions (glyph, group) and (group, glyph) of a pair whose "
+    "glyph-glyph key it lacks, the UFO lookup order and fontMath's order differ; the statement "
+    "leaves this open, both substitutions are accepted (stratum kern_conflict, two full masters); "
+    "keys the instance does not store are judged through the lookup only where it is unambiguous",
+    "strata that exist only to re-trigger a reported finding (negative x.5 kerning, rule pairs "
+    "referencing each other through components, mixed half-exception paths) are generated only "
+    "when the finding's key is listed in known_findings.json (or VERIF_C19_STRATA=all); the "
+    "default stratum keeps those inputs out",
     "defcon / ufoLib2 object models and fontTools.designspaceLib descriptors are trusted",
 ]
 NONVACUITY = ["master_location_instances", "interior_instances", "two_axis_cases", "sparse_cases",
